@@ -291,6 +291,11 @@ def parse_to_graph(integration, fobj, via_plugin=False):
             return container_items(integration, s)
         import rdflib
         ds = rdflib.Graph() if via_plugin == "graph" else rdflib.Dataset()
+        # rdflib creates a namespace manager lazily, binding its defaults (override=True) at that moment: on a
+        # never-touched Dataset that happens at the first namespaces() call AFTER parsing and re-binds e.g.
+        # 'schema' over a declared 'sdo' - with rdflib's own parsers too.  The target here is a container whose
+        # namespace manager already exists, as it does for any container that has been used before.
+        list(ds.namespaces())
         ds.parse(source=fobj, format="jelly")
         return container_items(integration, ds)
     return container_items(integration, m.parse_jelly_to_graph(fobj))
